@@ -23,6 +23,19 @@ def newState (codes : Array Code) (heap : Array Cell) (consts : Array V) (mainFn
     numModules := numModules, globals := .nil, modules := #[], err := none, abort := false,
     steps := 0, trace := #[], traceOn := true, noPanic := false }
 
+/-- `locals[i] = v` on the slice `locals := vm.stack[:numLocals]` -/
+def setLocal (numLocals : Nat) (i : Int) (v : V) : M Unit := do
+  if i < 0 || i ≥ (numLocals : Int) then
+    panic s!"runtime error: index out of range [{i}] with length {numLocals}"
+  else stackSet i v
+
+/-- `copy(locals, xs)` -/
+def copyLocals (numLocals : Nat) (xs : List V) : M Unit := do
+  let mut i := 0
+  for x in xs do
+    if i < numLocals then stackSet i x
+    i := i + 1
+
 /-- vm.go initLocals -/
 def initLocals (args : List V) : M Unit := do
   let s ← getS
@@ -31,28 +44,18 @@ def initLocals (args : List V) : M Unit := do
   let numLocals := code.numLocals
   if numLocals > stackSize then
     panic s!"runtime error: slice bounds out of range [:{numLocals}] with capacity {stackSize}"
-  for i in [0:numLocals] do
-    stackSet i .undefined
+  fillUndefined 0 numLocals
   if numParams ≤ 0 then return
-  let setLocal (i : Int) (v : V) : M Unit := do
-    if i < 0 || i ≥ (numLocals : Int) then
-      panic s!"runtime error: index out of range [{i}] with length {numLocals}"
-    else stackSet i v
-  let copyLocals (xs : List V) : M Unit := do
-    let mut i := 0
-    for x in xs do
-      if i < numLocals then stackSet i x
-      i := i + 1
   if (args.length : Int) < numParams then
-    if code.variadic then setLocal (numParams - 1) (← newArray [])
-    copyLocals args
+    if code.variadic then setLocal numLocals (numParams - 1) (← newArray [])
+    copyLocals numLocals args
     return
   if code.variadic then
     let vargs := args.drop (numParams - 1).toNat
-    setLocal (numParams - 1) (← newArray vargs)
+    setLocal numLocals (numParams - 1) (← newArray vargs)
   else
-    setLocal (numParams - 1) (args[(numParams - 1).toNat]!)
-  copyLocals (args.take (numParams - 1).toNat)
+    setLocal numLocals (numParams - 1) (args[(numParams - 1).toNat]!)
+  copyLocals numLocals (args.take (numParams - 1).toNat)
 
 /-- vm.go initCurrentFrame -/
 def initCurrentFrame : M Unit := do
@@ -91,6 +94,13 @@ def loopF (F : FloatOps) : Nat → M (Option Unit)
     match (← step F) with
     | .ret => return some ()
     | .next => loopF F fuel
+
+/-- the epilogue of `Run` (outside `recover`): `vm.stack[vm.sp-1]`, dereferenced if it is an *ObjectPtr -/
+def resultValue : M V := do
+  let v ← stackGet ((← getSp) - 1)
+  match v with
+  | .box a => do match (← heapGet a) with | .box v => pure v | _ => unsupported "model: bad box"
+  | v => pure v
 
 /-- vm.go handlePanic -/
 def handlePanic (msg : String) : M Unit := do
@@ -138,11 +148,7 @@ where
     | some e => (.error e, s)
     | none =>
       if s.sp < (stackSize : Int) then
-        match (do
-            let v ← stackGet (s.sp - 1)
-            match v with
-            | .box a => do match (← heapGet a) with | .box v => pure v | _ => unsupported "model: bad box"
-            | v => pure v : M V).run.run s with
+        match resultValue.run.run s with
         | (.ok v, s) => (.value v, s)
         | (.error (.panic m), s) => (.goPanic m, s)
         | (.error (.unsupported m), s) => (.unsupported m, s)
